@@ -868,7 +868,7 @@ func main() {
 	vdir := verifDir()
 	header := "From KB Require Import Base.Cases Model.Metrics Model.Handlers Model.C20Cases Gen.MetricsTable.\n" +
 		"Definition c20_check_t := c20_check metrics_table.\nDefinition c20_oracle_t := c20_oracle metrics_globals metrics_table."
-	w := lib.NewWriter(args, "C20", "c20", header, "c20_case", "c20_check_t", "c20_oracle_t", 1500)
+	w := lib.NewWriter(args, "C20", "c20", header, "c20_case", "c20_check_t", "c20_oracle_t", 400)
 	work := filepath.Join(args.Scratch, fmt.Sprintf("c20-%d", os.Getpid()))
 	_ = os.MkdirAll(work, 0o755)
 	defer os.RemoveAll(work)
@@ -1020,6 +1020,7 @@ func main() {
 		var stderr strings.Builder
 		cmd.Stderr = &tailWriter{sb: &stderr}
 		runErr := cmd.Run()
+		timedOut := ctx.Err() != nil
 		cancel()
 		lines := readLog(logPath)
 		starts := map[int]logLine{}
@@ -1043,7 +1044,7 @@ func main() {
 			if !finished {
 				// the process died (or was killed on time-out) while this request was in flight
 				oc := "OExit"
-				if ctx.Err() != nil {
+				if timedOut {
 					oc = "OWedge"
 				}
 				d = logLine{Outcome: oc, Note: fmt.Sprintf("child ended: %v; stderr tail: %s", runErr, tail(stderr.String(), 1200))}
@@ -1063,8 +1064,14 @@ func main() {
 					if j > i {
 						break
 					}
-					if j >= i-5 {
-						logTail = append(logTail, starts[j].Req)
+					if j >= i-5 && j < i {
+						cp := map[string]interface{}{}
+						for k, v := range starts[j].Req {
+							if k != "preceding_requests" {
+								cp[k] = v
+							}
+						}
+						logTail = append(logTail, cp)
 					}
 				}
 				s.Req["preceding_requests"] = logTail
